@@ -523,7 +523,9 @@ def scenario(draw):
           "tape": draw(st.lists(st.integers(0, 999), min_size=20, max_size=400))}
     if draw(st.integers(0, 2)) == 0:
         sc["leftovers"] = [{"kind": draw(st.sampled_from(["S2", "S3", "S4"])),
-                            "age": OSSIFIED + draw(st.sampled_from([-3600, -90, 90, 3600]))} for _ in range(draw(st.integers(1, 3)))]
+                            # a negative age = access time ahead of the daemon's clock (clock stepped back, skew against a file server, or a
+                            # file created after the daemon last read the clock): certainly not 36 hours old
+                            "age": draw(st.sampled_from([OSSIFIED - 3600, OSSIFIED - 90, OSSIFIED + 90, OSSIFIED + 3600, -3600, -5]))} for _ in range(draw(st.integers(1, 3)))]
     if draw(st.integers(0, 3)) == 0:
         sc["crash"] = {"key": draw(st.sampled_from(["send.qmail-send", "clean.qmail-clean", "inj0", "send.qmail-queue"])), "k": draw(st.integers(0, 40))}
     if draw(st.integers(0, 4)) == 0:
@@ -623,6 +625,10 @@ FIXED = [
      "leftovers": [{"kind": "S4", "age": OSSIFIED + 3600, "dir0": True} for _ in range(6)]},
     {"messages": [], "script": "K", "tape": [],
      "leftovers": [{"kind": "S4", "age": OSSIFIED + 3600, "dir0": True} for _ in range(4)] + [{"kind": "S3", "age": OSSIFIED + 3600, "dir0": True}, {"kind": "S2", "age": OSSIFIED - 3600, "dir0": True}]},
+    # leftovers whose access time lies ahead of the daemon's clock (added after seeded change C02-L): younger than 36 hours by any reading
+    {"messages": [{"sender": "s@rem.example", "rcpts": ["u@loc.example"], "body": "x\n"}], "script": "K", "tape": [],
+     "leftovers": [{"kind": "S2", "age": -3600, "dir0": True}, {"kind": "S3", "age": -5, "dir0": True}, {"kind": "S2", "age": -86400 * 400, "dir0": True},
+                   {"kind": "S3", "age": OSSIFIED + 3600, "dir0": True}]},
 ]
 
 
